@@ -2,10 +2,13 @@
     k-way merge of spill/external_sort.rs.  No proofs in this file.
 
     [merge_sorted_runs] pushes the head of every non-empty run into a
-    [std::collections::BinaryHeap<MergeEntry>] whose [Ord] is the *reversed* row comparison and
-    nothing else (no run-index tie-break), then repeatedly pops the top and pushes the next row of
-    the run the popped entry came from.  Which of several equal-key heads is popped first is
-    decided by the array layout of the heap, so the heap algorithm of the standard library
+    [std::collections::BinaryHeap<MergeEntry>], then repeatedly pops the top and pushes the next
+    row of the run the popped entry came from.  Since 2824ade the [Ord] of the heap entries is the
+    *reversed* row comparison followed by the *reversed* comparison of the run indices (rows with
+    equal keys come from the earlier run first); before, it was the row comparison alone, and which
+    of several equal-key heads was popped first was decided by the array layout of the heap (the
+    [_pre] definitions, finding C17-K1).  The generic [kmerge] below takes the comparison of the
+    heap entries as a parameter; the heap algorithm of the standard library
     (library/alloc/src/collections/binary_heap/mod.rs: push = sift_up(0, old_len),
     pop = swap-remove the root, sift_down_to_bottom(0), sift_up) is transcribed literally. *)
 From Coq Require Import List Arith Bool ZArith.
@@ -127,8 +130,9 @@ Section KMerge.
   (** the general path of merge_sorted_runs and ExternalSort::k_way_merge *)
   Definition kmerge (runs : list (list A)) : list A := map fst (kmerge_tagged runs).
 
-  (** merge_sorted_runs: 0 runs => empty, 1 run => that run unchanged, otherwise the heap merge *)
-  Definition merge_sorted_runs (runs : list (list A)) : list A :=
+  (** merge_sorted_runs before 2824ade (no run-index tie-break): 0 runs => empty, 1 run => that run
+      unchanged, otherwise the heap merge on the row comparison alone *)
+  Definition merge_sorted_runs_pre (runs : list (list A)) : list A :=
     match runs with
     | [] => []
     | [r] => r
@@ -153,8 +157,8 @@ Section KMerge.
     | x :: t => match t with [] => true | y :: _ => leb x y && sortedb t end
     end.
 
-  (** ExternalSort::merge_all(runs on disk (non-empty, sorted), in-memory buffer (unsorted)) *)
-  Definition merge_all (runs : list (list A)) (mem : list A) : list A :=
+  (** ExternalSort::merge_all before 2824ade *)
+  Definition merge_all_pre (runs : list (list A)) (mem : list A) : list A :=
     match runs, mem with
     | [], [] => []
     | [], _ => isort mem
@@ -170,6 +174,40 @@ Section KMerge.
     | r :: rs => existsb (cross_tie_b r) rs || k_cross_ties rs
     end.
 End KMerge.
+
+(** ** the merges of the current code: heap entries ordered by (row comparison, run index) *)
+(** [MergeEntry::cmp] / [HeapEntry::cmp] = reversed [cmp_tag] on (row, run index) *)
+Definition cmp_tag {A} (cmp : A -> A -> comparison) (a b : A * nat) : comparison :=
+  match cmp (fst a) (fst b) with
+  | Eq => Nat.compare (snd a) (snd b)
+  | c => c
+  end.
+(** every row together with the index of its run *)
+Fixpoint tag_runs {A} (i : nat) (runs : list (list A)) : list (list (A * nat)) :=
+  match runs with
+  | [] => []
+  | r :: rs => map (fun x => (x, i)) r :: tag_runs (S i) rs
+  end.
+Definition kmerge_st {A} (cmp : A -> A -> comparison) (runs : list (list A)) : list A :=
+  map fst (kmerge (cmp_tag cmp) (tag_runs 0 runs)).
+
+(** merge_sorted_runs: 0 runs => empty, 1 run => that run unchanged, otherwise the heap merge *)
+Definition merge_sorted_runs {A} (cmp : A -> A -> comparison) (runs : list (list A)) : list A :=
+  match runs with
+  | [] => []
+  | [r] => r
+  | _ => kmerge_st cmp runs
+  end.
+
+(** ExternalSort::merge_all(runs on disk (non-empty, sorted), in-memory buffer (unsorted)); the
+    in-memory buffer is the last run *)
+Definition merge_all {A} (cmp : A -> A -> comparison) (runs : list (list A)) (mem : list A) : list A :=
+  match runs, mem with
+  | [], [] => []
+  | [], _ => isort cmp mem
+  | [r], [] => r
+  | _, _ => kmerge_st cmp (runs ++ [isort cmp mem])
+  end.
 
 (** ** chunks (row-major: a chunk = list of rows) *)
 Section Chunks.
